@@ -17,3 +17,30 @@ package dsig
 //@ func (d *Digest) Equals(d2) (err)
 //@   requires d != nil && d2 != nil
 //@   ensures err == nil <==> d.Algorithm == d2.Algorithm && d.Value == d2.Value
+//
+// ---- C09: signatures. go-jose / ES256 are outside the verifier: whether a JWS
+// verifies under a key, whether its payload parses, and which header object was
+// signed are uninterpreted (assumption A-SIG).
+//@ spec jwsValid(sig *Signature, key *PublicKey) bool = uninterpreted
+//@ spec payloadOK(sig *Signature) bool = uninterpreted
+//@ spec signedHeader(sig *Signature) *head.Header = uninterpreted
+//
+//@ func (s *Signature) VerifyPayload(key, payload) (err)
+//@   trusted A-SIG: go-jose verification and JSON decoding of the payload into the target header
+//@   requires s != nil && s.jws != nil && key != nil
+//@   requires typeis(payload, *head.Header) && unboxed(payload, *head.Header) != nil
+//@   modifies head.Header.UUID, head.Header.Digest, head.Header.Stamps, head.Header.Links, head.Header.Tags, head.Header.Meta, head.Header.Notes
+//@   footprint unboxed(payload, *head.Header)
+//@   ensures err == nil <==> jwsValid(s, key) && payloadOK(s)
+//@   ensures head.wfHeader(signedHeader(s)) && allocated(signedHeader(s))
+//@   ensures err == nil ==> head.sameFields(unboxed(payload, *head.Header), signedHeader(s))
+//
+//@ func (s *Signature) UnsafePayload(payload) (err)
+//@   trusted A-SIG: JSON decoding of the unverified payload into the target header
+//@   requires s != nil && s.jws != nil
+//@   requires typeis(payload, *head.Header) && unboxed(payload, *head.Header) != nil
+//@   modifies head.Header.UUID, head.Header.Digest, head.Header.Stamps, head.Header.Links, head.Header.Tags, head.Header.Meta, head.Header.Notes
+//@   footprint unboxed(payload, *head.Header)
+//@   ensures err == nil <==> payloadOK(s)
+//@   ensures head.wfHeader(signedHeader(s)) && allocated(signedHeader(s))
+//@   ensures err == nil ==> head.sameFields(unboxed(payload, *head.Header), signedHeader(s))
